@@ -805,9 +805,28 @@ pub fn evaluate(prop: &str, d: &RunData) -> (Vec<Violation>, Vec<Violation>) {
         _ => {}
     }
     let owned = owned_prefixes(prop);
-    // C13 owns a hang only when a timed operation is among the stuck ones
-    let (mine, foreign): (Vec<Violation>, Vec<Violation>) = all.into_iter().partition(|x| {
-        owned.iter().any(|p| x.sig.starts_with(p)) && !(prop == "C13" && x.sig.starts_with("hang/") && !x.sig.contains("timeout"))
-    });
+    // a hang belongs to a property only if it is about what the property speaks of:
+    //  C13 a timed operation is among the stuck ones; C15/C16 a future or the stream is among them;
+    //  C10 a close() had succeeded; C11 no close, and one side had lost all its handles
+    let closed = d.recs.iter().any(|r| r.res == Res::CloseOk);
+    let side_gone = {
+        let alive = |side: Side| {
+            1 + d.recs.iter().filter(|r| r.via.map(|v| v.0) == Some(side) && matches!(r.op, Op::Clone { .. }) && r.res == Res::Unit).count() as i64
+                - d.recs.iter().filter(|r| r.via.map(|v| v.0) == Some(side) && matches!(r.op, Op::DropHandle { .. }) && r.res != Res::Skipped).count() as i64
+        };
+        alive(Side::S) <= 0 || alive(Side::R) <= 0
+    };
+    let hang_is_mine = |sig: &str| -> bool {
+        let asyncish = sig.contains("async_") || sig.contains("stream_next") || sig.contains("fut_");
+        match prop {
+            "C13" => sig.contains("timeout"),
+            "C15" | "C16" => asyncish,
+            "C10" => closed,
+            "C11" => !closed && side_gone,
+            _ => true,
+        }
+    };
+    let (mine, foreign): (Vec<Violation>, Vec<Violation>) =
+        all.into_iter().partition(|x| owned.iter().any(|p| x.sig.starts_with(p)) && (!x.sig.starts_with("hang/") || hang_is_mine(&x.sig)));
     (mine, foreign)
 }
